@@ -55,9 +55,10 @@ func TuneGC() func() {
 
 // BreakingConfig parses (once) the buf.yaml of a Config with bufconfig.ReadBufYAMLFile.
 func (e *Engine) BreakingConfig(c Config) (bufconfig.BreakingConfig, error) {
+	key := c.String()
 	e.mu.Lock()
 	defer e.mu.Unlock()
-	if bc, ok := e.cfgs[c.String()]; ok {
+	if bc, ok := e.cfgs[key]; ok {
 		return bc, nil
 	}
 	f, err := bufx.ReadBufYAML(c.YAML())
@@ -69,8 +70,22 @@ func (e *Engine) BreakingConfig(c Config) (bufconfig.BreakingConfig, error) {
 		return nil, fmt.Errorf("expected 1 module config, got %d", len(mcs))
 	}
 	bc := mcs[0].BreakingConfig()
-	e.cfgs[c.String()] = bc
+	e.cfgs[key] = bc
 	return bc, nil
+}
+
+// BreakingYAML runs buf breaking (new vs old) under a buf.yaml given as text (parsed afresh, not cached),
+// imports excluded.
+func (e *Engine) BreakingYAML(key, yaml string, newImg, oldImg bufimage.Image) ([]bufx.Annotation, error) {
+	f, err := bufx.ReadBufYAML(yaml)
+	if err != nil {
+		return nil, fmt.Errorf("config %s: %w", key, err)
+	}
+	mcs := f.ModuleConfigs()
+	if len(mcs) != 1 {
+		return nil, fmt.Errorf("config %s: expected 1 module config, got %d", key, len(mcs))
+	}
+	return bufx.Breaking(e.ctx, mcs[0].BreakingConfig(), newImg, oldImg, bufcheck.BreakingWithExcludeImports())
 }
 
 // Image builds the image of a rendered schema (not cached).
@@ -120,10 +135,11 @@ func (e *Engine) Breaking(c Config, newImg, oldImg bufimage.Image) ([]bufx.Annot
 
 // RuleInfo is what buf itself says about a breaking rule in a version.
 type RuleInfo struct {
-	ID         string
-	Categories []string
-	Deprecated bool
-	Purpose    string
+	ID           string
+	Categories   []string
+	Deprecated   bool
+	Purpose      string
+	Replacements []string `json:",omitempty"`
 }
 
 // AllRules lists buf's breaking rules of a version (Client.AllRules).
@@ -152,6 +168,8 @@ func (e *Engine) AllRules(version string) ([]RuleInfo, error) {
 			ri.Categories = append(ri.Categories, c.ID())
 		}
 		sort.Strings(ri.Categories)
+		ri.Replacements = append([]string(nil), r.ReplacementIDs()...)
+		sort.Strings(ri.Replacements)
 		out = append(out, ri)
 	}
 	return out, nil
